@@ -53,6 +53,7 @@ type Thread struct {
 
 	// reader/writer bookkeeping
 	snap    *engine.SpecState // what a reader must see
+	snapEnd uint64            // committed data end marker when the reader's snapshot was taken
 	inTx    bool              // currently holds a transaction
 	txStack []bool            // open transactions of this goroutine (true = write)
 	moreTx  int               // transactions still to begin
@@ -68,6 +69,7 @@ type Event struct {
 // Sys is the system under a controlled schedule.
 type Sys struct {
 	mu      sync.Mutex
+	fresh   map[uint64]bool // pages allocated by the running write transaction
 	arrived chan *Thread
 	threads []*Thread
 	byGid   map[uint64]*Thread
@@ -437,6 +439,29 @@ func (s *Sys) verifyView(t *Thread, tx *txfile.Tx, when string) {
 			return
 		}
 	}
+	// pages a running writer has allocated past the committed end of this reader's snapshot are
+	// outside the reader's bounds (Tx.dataEndID is a copy taken at Begin), flushed or not
+	s.mu.Lock()
+	var fresh []uint64
+	for id := range s.fresh {
+		if _, in := st.Pages[id]; !in && id >= t.snapEnd {
+			fresh = append(fresh, id)
+		}
+	}
+	s.mu.Unlock()
+	sort.Slice(fresh, func(i, j int) bool { return fresh[i] < fresh[j] })
+	for _, id := range fresh {
+		s.Markers["reader-probes-writer-page"]++
+		if p, err := tx.Page(txfile.PageID(id)); err == nil {
+			what := "unreadable"
+			if b, err := p.Bytes(); err == nil {
+				c, _ := engine.Parse(b)
+				what = fmt.Sprintf("reads %s", c)
+			}
+			s.fail("C02", "reader-bound", "reader %d %s: opens page %d, allocated by the running writer past the committed end %d of the reader's snapshot (%s)", t.ID, when, id, t.snapEnd, what)
+			return
+		}
+	}
 }
 
 // ReaderBody: begin, verify, yield..., verify, close.
@@ -460,6 +485,11 @@ func (s *Sys) ReaderBody(checks int) func(t *Thread) {
 		s.mu.Lock()
 		t.snap = s.specCopy()
 		s.mu.Unlock()
+		if fs := s.F.VerifSnapshot(); fs.MappedLen > 0 {
+			t.snapEnd = fs.Meta[fs.MetaActive].DataEnd
+		} else {
+			t.snapEnd = ^uint64(0)
+		}
 		s.verifyView(t, tx, "at begin")
 		for i := 0; i < checks; i++ {
 			s.yield(t)
@@ -516,6 +546,12 @@ func (s *Sys) WriterBody(r *engine.RNG, txs int) func(t *Thread) {
 					}
 					next.Pages[id] = c
 					ids = append(ids, id)
+					s.mu.Lock()
+					if s.fresh == nil {
+						s.fresh = map[uint64]bool{}
+					}
+					s.fresh[id] = true
+					s.mu.Unlock()
 				case w < 8:
 					id := ids[r.Intn(len(ids))]
 					p, err := tx.Page(txfile.PageID(id))
@@ -582,6 +618,7 @@ func (s *Sys) WriterBody(r *engine.RNG, txs int) func(t *Thread) {
 			_ = cerr
 			s.mu.Lock()
 			t.inTx = false
+			s.fresh = nil
 			s.mu.Unlock()
 		}
 	}
